@@ -118,7 +118,8 @@ def run(ctx):
     for j, (label, line, why) in enumerate(sorted(bad, key=lambda b: len(b[1]))[:3]):
         res.violation(f"oracle-{j}", dict(what=why, label=label, line=line))
     for j, (label, line, why) in enumerate(corr[:2]):
-        res.violation(f"correspondence-{j}", dict(what=why, label=label, line=line, broken="correspondence Graph/Copy.lean copyFrom vs NifFile::CopyFrom"))
+        res.violation(f"correspondence-{j}", dict(what=why, label=label, line=line, broken="correspondence Graph/Copy.lean copyFrom vs NifFile::CopyFrom"),
+                      no_input=not any(b[1] == line for b in bad))
     res.coverage.update(
         evaluations=len(lines), distinct_nontrivial=nontrivial, traces_validated_against_impl=len(pred),
         rule="copy scenarios (constructor, assignment, assignment over a live model, self assignment, stale-cache boundary) on every "
